@@ -17,6 +17,15 @@ Two oracle layers (DESIGN section 4, C16):
     representable abscissa pairs, half maximum at loc +- fwhm/2 with the fwhm the model
     itself reports, composite = left + right on the observed sub-calls, bitwise equal
     results under every prefix, result unit, refusal of missing / extra / unknown names.
+(c) families of related prefixes (``family_case``): the same model under a base prefix and siblings whose
+    prefixes are related to it in every way (equal length with a different first / inner / last / every
+    character, reversed, one a proper prefix of the other in both directions, longer / shorter unrelated,
+    empty), every sibling with its own values, asked with every kind of dict a caller holds: exactly own,
+    the full dict of the composite of the family (what fit_peaks hands to ``peak.fwhm(popt)``), own +
+    sibling in both orders, the sibling's names, single names swapped, mixtures.  ``__call__`` must refuse
+    everything but its exact names; ``fwhm`` -- which the unchanged code and fit_peaks use with a superset
+    dict -- must equal factor(kind) x the model's OWN scale (analytic FWHM) and be bitwise what it reports
+    for its own dict alone; without its own scale entry it has nothing to report and must refuse.
 """
 
 from __future__ import annotations
@@ -37,7 +46,13 @@ RULE = (
     'amplitude +-(1e-6..1e6), loc +-1e6 (or within 1e3 scale), scale 1e-6..1e6, fraction in [0,1] '
     'incl. 0 and 1; x scalar and 1-d in 9 units, amplitude in 8 units; a case is non-trivial unless '
     'empty prefix + dimensionless + scalar x; distinct = distinct (kind, conditioning, prefix class, '
-    'x unit, amplitude unit, x shape class, scale decade band, sign, fraction class / degree)'
+    'x unit, amplitude unit, x shape class, scale decade band, sign, fraction class / degree). '
+    'In every shard one family per model kind (3 peaks, polynomial, prefixed composite): the model under a '
+    'base prefix and 8..12 sibling prefixes (same length differing in first/inner/last/every character, '
+    'reversed, extension, doubling, truncation, longer/shorter unrelated, empty), each with its own values, '
+    'called and asked for fwhm/guess/param_bounds with its own dict, the full dict of the composite of the '
+    'family in 3 orders, own+sibling in both orders, sibling names (sibling or own values), one name swapped, '
+    'names mixed'
 )
 ASSUMPTIONS = [
     'numpy long double (x87 80 bit) evaluates the closed forms with error << 64 eps (mpmath self-test per run)',
@@ -47,6 +62,10 @@ ASSUMPTIONS = [
     'polynomial coefficient a_i carries y-unit / x-unit^i',
     'a refusal is an exception of type ValueError (what the code raises), KeyError or TypeError '
     '(conventional for bad names); the property text only says "refuse"; other types are violations',
+    'fwhm(params) may be given a superset of the model\'s names (the package does: fit_peaks passes the full '
+    'popt of background + peak) and then depends on the model\'s own scale only; a dict that lacks the '
+    'model\'s own scale entry must be refused (any value returned would come from a foreign name); dicts '
+    'with the own scale but other own names missing are not judged',
     '400-node Gauss-Legendre in u reproduces the amplitude of the closed forms to < 1e-12 (self-test per run)',
 ]
 TECHNIQUE = ('runtime monitors (sys.monitoring) on Model.__call__, every _call, fwhm, guess, param_bounds, '
@@ -126,9 +145,9 @@ class OutOfDomain(Exception):
     pass
 
 
-def _val(p):
+def _val(p, allow_variance=False):
     """Float value of a scalar parameter; OutOfDomain when not a plain finite float scalar."""
-    if not isinstance(p, sc.Variable) or p.ndim != 0 or p.variance is not None:
+    if not isinstance(p, sc.Variable) or p.ndim != 0 or (p.variance is not None and not allow_variance):
         raise OutOfDomain('parameter is not a plain scalar')
     if p.dtype not in (sc.DType.float64, sc.DType.float32, sc.DType.int64, sc.DType.int32):
         raise OutOfDomain('dtype')
@@ -215,6 +234,9 @@ class Monitors:
         self.reg: dict[int, tuple] = {}  # id(model) -> (model kept alive, spec)
         self.origin = 'direct'
         self.last_fwhm = None
+        # harness label of the kind of parameter dict being handed over (evidence and grouping of
+        # witnesses only: every verdict is taken from the names actually observed)
+        self.dict_kind = None
 
     # -- registry driven by the observed constructor arguments ----------------
     def spec_of(self, model):
@@ -307,12 +329,16 @@ class Monitors:
         if keys != names:
             missing, extra = names - keys, keys - names
             how = 'missing' if missing and not extra else ('extra' if extra and not missing else 'unknown')
+            label = self.dict_kind or '-'
             if ev.exc is None:
                 ctx.violation('accepted_bad_params',
                               f'{spec_str(spec)} accepted parameter names with {how}: '
-                              f'missing={sorted(missing)} extra={sorted(extra)}', case, how=how, model=kind)
+                              f'missing={sorted(missing)} extra={sorted(extra)}', case, how=how, model=kind,
+                              names=label)
             elif isinstance(ev.exc, REFUSAL_TYPES):
                 ctx.event('refusal.' + how)
+                if self.dict_kind:
+                    ctx.event('refused: ' + self.dict_kind)
                 ctx.count('refusal_type:' + type(ev.exc).__name__)
             else:
                 ctx.violation('refusal_wrong_type',
@@ -474,21 +500,64 @@ class Monitors:
                                       f'got {type(ev.exc).__name__ if ev.exc else "a result"}', case,
                                       model=spec['kind'])
                     return
-                if set(params) != spec_names(spec):
-                    return  # the property says nothing about fwhm with other names
-                scale = params[spec['prefix'] + 'scale']
-                _val(scale)
+                # What fwhm may be given: the unchanged code and documentation take "parameter values for
+                # which to compute the FWHM" as a dict and the package itself (fit_peaks) hands over the full
+                # dict of the composite background + peak, i.e. a SUPERSET of the model's names.  The FWHM is
+                # a function of the model's own scale only ("independent of the parameter-name prefix"):
+                #   own names all present (exact or superset) -> fwhm = factor(kind) * own scale, whatever
+                #       else the dict holds and in whatever order;
+                #   own scale absent -> there is no value the result could legitimately be computed from:
+                #       returning one is a result that depends on foreign names (refusal expected);
+                #   own scale present but other own names absent -> not judged (the property does not say).
+                names, keys = spec_names(spec), set(params)
+                own = spec['prefix'] + 'scale'
+                label = self.dict_kind or '-'
+                if own not in keys:
+                    if ev.exc is None:
+                        ctx.violation('fwhm_without_own_scale',
+                                      f'{spec_str(spec)}.fwhm returned {getattr(ev.result, "value", ev.result)!r} '
+                                      f'for a dict without {own!r} (names {sorted(keys)})', case, model=kind,
+                                      names=label)
+                    elif isinstance(ev.exc, REFUSAL_TYPES):
+                        ctx.event('fwhm_refusal.' + kind)
+                    else:
+                        ctx.count('fwhm_without_own_scale_raised:' + type(ev.exc).__name__)
+                    return
+                if not names <= keys:
+                    ctx.count('fwhm_partial_names_not_judged')
+                    return
+                relation = 'exact' if keys == names else 'superset'
+                scale = params[own]
+                s_val = _val(scale, allow_variance=True)
+                if not (1e-6 * (1 - 1e-12) <= s_val <= 1e6 * (1 + 1e-12)):
+                    raise OutOfDomain('scale outside 1e-6..1e6')
                 if ev.exc is not None:
-                    ctx.violation('fwhm_raised', f'{spec_str(spec)}.fwhm raised {type(ev.exc).__name__}: {ev.exc}',
-                                  case, model=kind, prefix_class=prefix_class(spec['prefix']))
+                    ctx.violation('fwhm_raised', f'{spec_str(spec)}.fwhm raised {type(ev.exc).__name__}: {ev.exc} '
+                                  f'({relation} dict)', case, model=kind, prefix_class=prefix_class(spec['prefix']),
+                                  names=label)
                     return
                 w = ev.result
                 ctx.event('fwhm.' + kind)
+                ctx.event(f'fwhm_{relation}.' + kind)
+                ctx.count(f'fwhm_judged:{self.origin}:{relation}')
+                if self.dict_kind:
+                    ctx.event('fwhm judged: ' + self.dict_kind)
                 if not isinstance(w, sc.Variable) or w.ndim != 0 or w.unit != scale.unit:
                     ctx.violation('fwhm_unit', f'{spec_str(spec)}.fwhm returned {w!r}, expected a scalar in '
                                   f'{scale.unit}', case, model=kind)
                 elif not (np.isfinite(w.value) and w.value > 0):
                     ctx.violation('fwhm_value', f'{spec_str(spec)}.fwhm = {w.value!r}', case, model=kind)
+                else:
+                    # analytic FWHM of the definition: 2 sqrt(2 ln 2) sigma (Gaussian), 2 gamma (Lorentzian,
+                    # and the pseudo-Voigt whose parts share the FWHM 2*scale)
+                    want = (pk.GAUSS_FWHM_FACTOR if kind == 'gauss' else pk.TWO) * LD(s_val)
+                    dev = float(abs(LD(float(w.value)) - want) / want) / (pk.K * EPS)
+                    ctx.dev(f'fwhm_{relation}.{kind} [fraction of 64 eps]', dev)
+                    if dev > 1.0:
+                        ctx.violation('fwhm_not_own_scale',
+                                      f'{spec_str(spec)}.fwhm = {float(w.value)!r} for a dict ({relation}) whose '
+                                      f'{own!r} = {s_val!r}: the definition gives {float(want)!r}', case,
+                                      model=kind, relation=relation, names=label)
             except OutOfDomain:
                 ctx.count('out_of_domain:fwhm')
             except Exception:  # noqa: BLE001
@@ -757,8 +826,15 @@ def peak_identities(rng, ctx, model, prefix, kind, vals, pv, xunit, case):
                 ctx.violation('asymmetry', f'{kind}: f(loc+d) = {float(fp[i])!r} but f(loc-d) = {float(fm[i])!r}',
                               c, model=kind, layer='identity')
     # -- half maximum at loc +- fwhm/2 with the fwhm the model reports
+    halfmax_identity(ctx, model, kind, params, params, loc, scale, xunit, case)
+
+
+def halfmax_identity(ctx, model, kind, params, fwhm_params, loc, scale, xunit, case):
+    """f(loc +- fwhm/2) = f(loc)/2 with the fwhm the model reports when asked with ``fwhm_params`` (the
+    model's own dict, or -- as fit_peaks does -- the full dict of a composite that contains the model)."""
+    cond = 1.0 + abs(loc) / scale
     try:
-        w = model.fwhm(params)
+        w = model.fwhm(fwhm_params)
     except Exception:  # noqa: BLE001  (judged by the fwhm monitor)
         w = None
     if isinstance(w, sc.Variable) and w.ndim == 0 and w.unit == sc.Unit(xunit) and np.isfinite(w.value):
@@ -1160,6 +1236,280 @@ def composite_case(rng, ctx, mon, M):
     return sig, False, case
 
 
+# ------------------------------------------------- families of related prefixes ---
+# bases used by the deterministic family cases of every shard: long enough (>= 3 characters, with a
+# digit) for every relation below to exist
+NUMBERED = ['p1_', 'g2_', 'pk1_', 'peak_1_', 'n01', 'bkg1_', 'λ1_']
+_ALT = 'qZ7_-λ'
+
+REL_LAST = 'same length, last character differs'
+REL_FIRST = 'same length, first character differs'
+REL_INNER = 'same length, inner character differs'
+REL_ALL = 'same length, every character differs'
+REL_REV = 'same length, reversed'
+REL_EXT = 'base is a proper prefix of it'
+REL_DBL = 'base doubled'
+REL_CUT = 'it is a proper prefix of base'
+REL_LONG = 'longer, unrelated text'
+REL_SHORT = 'shorter, unrelated text'
+REL_EMPTY = 'empty'
+RELATIONS = [REL_LAST, REL_FIRST, REL_INNER, REL_ALL, REL_REV, REL_EXT, REL_DBL, REL_CUT, REL_LONG, REL_SHORT,
+             REL_EMPTY]
+
+# kinds of parameter dicts a caller produces for model i of a family (labels for the evidence)
+DK_COMP_FIRST = 'composite dict, own entries first'
+DK_COMP_LAST = 'composite dict, own entries last'
+DK_COMP_SHUF = 'composite dict, shuffled'
+DK_SIB = 'sibling names, sibling values'
+DK_SIB_OWNVAL = 'sibling names, own values'
+DK_OWN_SIB = 'own + sibling'
+DK_SIB_OWN = 'sibling + own'
+DK_SWAP1 = 'one name taken from the sibling'
+DK_MIXED = 'names mixed between own and sibling'
+DICT_KINDS = [DK_COMP_FIRST, DK_COMP_LAST, DK_COMP_SHUF, DK_SIB, DK_SIB_OWNVAL, DK_OWN_SIB, DK_SIB_OWN, DK_SWAP1,
+              DK_MIXED]
+
+
+def _other(c, k=0):
+    for ch in _ALT[k:] + _ALT[:k]:
+        if ch != c:
+            return ch
+    return 'q'
+
+
+def prefix_family(rng, base):
+    """[(relation to base, prefix)]: the base and sibling prefixes related to it in every way two prefixes
+    can be related (equal length with different text in the first / an inner / the last / every position,
+    one a proper prefix of the other in both directions, longer / shorter unrelated text, empty).  Derived
+    generically from any non-empty base; duplicates (short bases) are dropped."""
+    n = len(base)
+    every = ''.join(_other(c, 2) for c in base)
+    fam = [('base', base),
+           (REL_LAST, base[:-1] + _other(base[-1])),
+           (REL_FIRST, _other(base[0], 1) + base[1:])]
+    if n >= 3:
+        i = 1 + int(rng.integers(0, n - 2))
+        c = base[i]
+        fam.append((REL_INNER, base[:i] + (str((int(c) + 1) % 10) if c in '0123456789' else _other(c, 3))
+                    + base[i + 1:]))
+    digits = [i for i, c in enumerate(base) if c in '0123456789']
+    if digits:  # the numbered sibling: p1_ -> p2_
+        i = digits[-1]
+        fam.append((REL_INNER if 0 < i < n - 1 else (REL_LAST if i == n - 1 else REL_FIRST),
+                    base[:i] + str((int(base[i]) + 1) % 10) + base[i + 1:]))
+    fam += [(REL_ALL, every), (REL_REV, base[::-1]), (REL_EXT, base + base[-1]), (REL_DBL, base + base),
+            (REL_CUT, base[:-1]), (REL_LONG, every + 'x'), (REL_SHORT, every[:-1]), (REL_EMPTY, '')]
+    out, seen = [], set()
+    for rel, p in fam:
+        if p not in seen:
+            seen.add(p)
+            out.append((rel, p))
+    return out
+
+
+def relation_of(p, q):
+    """Relation of prefix q to prefix p (for witnesses)."""
+    if len(p) == len(q):
+        return 'same length'
+    if q.startswith(p) or p.startswith(q):
+        return 'one a prefix of the other'
+    return 'different length'
+
+
+def name_map(spec):
+    """full parameter name -> 'leaf index:base name' from the documented naming of the spec."""
+    table = {}
+    idx = [0]
+
+    def walk(s, pre):
+        pre = pre + s['prefix']
+        if s['kind'] == 'comp':
+            walk(s['left'], pre)
+            walk(s['right'], pre)
+        else:
+            for b in base_names(s):
+                table[pre + b] = f'{idx[0]}:{b}'
+            idx[0] += 1
+    walk(spec, '')
+    return lambda k: table.get(k, '?' + k)
+
+
+def family_case(rng, ctx, mon, M, kind, base):
+    """One family: the same model under a base prefix and every related sibling prefix, evaluated and asked
+    for fwhm / guess / param_bounds with every kind of parameter dict a caller holds: exactly its own, the
+    full dict of the composite of the whole family (what fit_peaks hands to ``peak.fwhm``), own + one
+    sibling in both orders, the sibling's names (with the sibling's or with its own values) and mixtures.
+    Every sibling has its own parameter values, so a result taken from a foreign entry differs."""
+    fam = prefix_family(rng, base)
+    for rel, _ in fam[1:]:
+        ctx.hit('family: ' + rel)
+    xunit = X_UNITS[int(rng.integers(0, len(X_UNITS)))]
+    yunit = A_UNITS[int(rng.integers(0, len(A_UNITS)))]
+    aunit = sc.Unit(yunit) * sc.Unit(xunit)
+    centre = logu(rng, -3, 3) * (1.0 if rng.random() < 0.5 else -1.0)
+    width = abs(centre) * logu(rng, -3, 0) if rng.random() < 0.7 else logu(rng, -4, 4)
+    width = float(np.clip(width, 1e-6, 1e6))
+    degree = int(rng.integers(1, 7))
+    if kind == 'comp':
+        lp, rp = NESTED_PAIRS[int(rng.integers(0, len(NESTED_PAIRS)))] if rng.random() < 0.5 else ('b_', 'g_')
+        pk_kind = PEAKS[int(rng.integers(0, 3))]
+        leaf_kinds = ['poly', pk_kind]
+
+        def spec_for(p):
+            return {'kind': 'comp', 'prefix': p, 'left': {'kind': 'poly', 'prefix': lp, 'degree': degree},
+                    'right': {'kind': pk_kind, 'prefix': rp}}
+    elif kind == 'poly':
+        leaf_kinds = ['poly']
+
+        def spec_for(p):
+            return {'kind': 'poly', 'prefix': p, 'degree': degree}
+    else:
+        leaf_kinds = [kind]
+
+        def spec_for(p):
+            return {'kind': kind, 'prefix': p}
+
+    def draw_values():
+        out, num = [], []
+        for k in leaf_kinds:
+            if k == 'poly':
+                _, pv, _ = draw_poly(rng, ctx, degree, xunit, yunit)
+                out.append(pv)
+                num.append(None)
+            else:
+                vals, _ = draw_peak_values(rng, ctx, k, True)
+                vals['scale'] = float(np.clip(width * logu(rng, -1, 1), 1e-6, 1e6))
+                vals['loc'] = centre + width * float(rng.uniform(-2, 2))
+                out.append(peak_vars(vals, xunit, aunit))
+                num.append(vals)
+        return out, num
+
+    # ---- the members: half built by the constructor, half by with_prefix from an earlier member
+    members = []  # (model, spec, leaf values, numeric peak values, relation)
+    for i, (rel, p) in enumerate(fam):
+        spec = spec_for(p)
+        if i > 0 and rng.random() < 0.5:
+            m = members[int(rng.integers(0, len(members)))][0].with_prefix(p)
+        else:
+            m = build_model(rng, M, spec, use_add=False)
+        if mon.spec_of(m) != spec:
+            ctx.inconclusive_because('harness: observed family member differs from the plan: '
+                                     f'{mon.spec_of(m)} vs {spec_str(spec)}')
+            continue
+        lv, num = draw_values()
+        members.append((m, spec, lv, num, rel))
+    n = int(rng.integers(2, 8))
+    x, xcls = make_x(rng, ctx, centre + width * rng.uniform(-6, 6, size=n), xunit)
+    case = {'kind': kind, 'family': [[rel, sp['prefix']] for _, sp, _, _, rel in members], 'x_unit': xunit,
+            'y_unit': yunit, 'member': spec_str(spec_for(base)),
+            'values': [[describe_params(v) for v in lv] for _, _, lv, _, _ in members]}
+    is_peak = kind in PEAKS
+
+    def fwhm_of(m, params):
+        try:
+            return m.fwhm(params)
+        except Exception:  # noqa: BLE001  (judged by the fwhm monitors)
+            return None
+
+    # ---- round A: the SAME values under every prefix -> bitwise equal value / fwhm / guess / bounds
+    common = members[0][2]
+    mon.dict_kind = None
+    res = [(sp['prefix'], safe_call(m, x, shuffled(rng, full_params(sp, common)))) for m, sp, *_ in members]
+    check_prefix_bitwise(ctx, res, 'value', case, kind)
+    ws = [(sp['prefix'], fwhm_of(m, full_params(sp, common))) for m, sp, *_ in members]
+    if is_peak:
+        check_prefix_bitwise(ctx, ws, 'fwhm', case, kind)
+
+    def y_of(model):
+        xs = sc.array(dims=['x'], values=centre + width * np.linspace(-6, 6, 41), unit=xunit)
+        sp = mon.spec_of(model)
+        y = safe_call(model, xs, full_params(sp, common)) if sp else None
+        return None if y is None else sc.DataArray(y, coords={'x': xs})
+    check_guess_bounds(rng, ctx, [(m, name_map(sp)) for m, sp, *_ in members], y_of, kind, case)
+
+    # ---- round B: every member has its own values
+    own = [full_params(sp, lv) for _, sp, lv, _, _ in members]
+    full = {}
+    for d in own:
+        full.update(d)
+    disjoint = len(full) == sum(len(d) for d in own)
+    if not disjoint:
+        ctx.count('family_names_overlap')  # cannot happen with the documented naming; then nothing below is sound
+        return ('family', kind, 'overlap'), False, case
+    # the composite that contains the whole family, as a caller builds it (m0 + m1 + ...), evaluated with
+    # the full dict: judged pointwise and part by part by the __call__ monitor
+    try:
+        big = members[0][0]
+        for m, *_ in members[1:]:
+            big = (big + m) if rng.random() < 0.7 else (m + big)
+        safe_call(big, x, shuffled(rng, full))
+        ctx.event('family_composite')
+    except Exception:  # noqa: BLE001
+        ctx.count('family_composite_not_built')
+
+    def ask(i, label, params, superset):
+        """model i evaluated and asked for its fwhm with ``params`` (not its own dict)."""
+        m, sp, _, num, _ = members[i]
+        mon.dict_kind = label
+        safe_call(m, x, params)  # names differ from the model's own: the monitor demands a refusal
+        if is_peak:
+            w = fwhm_of(m, params)
+            if superset and isinstance(w, sc.Variable) and isinstance(w_own[i], sc.Variable):
+                ctx.event('fwhm_superset_bitwise')
+                if bits(w) != bits(w_own[i]):
+                    c = dict(case)
+                    c['asked'] = {'model': spec_str(sp), 'dict_kind': label, 'params': describe_params(params)}
+                    ctx.violation('fwhm_depends_on_foreign_entries',
+                                  f'{spec_str(sp)}.fwhm = {w.value!r} with a dict that holds its own parameters '
+                                  f'and others ({label}), {w_own[i].value!r} with its own parameters alone',
+                                  c, model=kind, names=label)
+        mon.dict_kind = None
+
+    mon.dict_kind = None
+    w_own = []
+    for (m, sp, _, num, _), d in zip(members, own, strict=True):
+        safe_call(m, x, shuffled(rng, d))
+        w_own.append(fwhm_of(m, d) if is_peak else None)
+    nm = len(members)
+    pairs = []
+    for j in range(1, nm):
+        pairs.append((0, j))  # the base against every relative
+        pairs.append((j, 0))  # every relative against the base
+        k = int(rng.integers(1, nm))
+        if k != j:
+            pairs.append((j, k))
+    for i in range(nm):
+        rest = shuffled(rng, {k: v for k, v in full.items() if k not in own[i]})
+        ask(i, DK_COMP_FIRST, {**own[i], **rest}, True)
+        ask(i, DK_COMP_LAST, {**rest, **own[i]}, True)
+        ask(i, DK_COMP_SHUF, shuffled(rng, full), True)
+        if is_peak:
+            # half maximum with the fwhm reported for the full dict (what fit_peaks does with popt)
+            num = members[i][3][0]
+            halfmax_identity(ctx, members[i][0], kind, own[i], {**rest, **own[i]}, num['loc'], num['scale'],
+                             xunit, case)
+    for i, j in pairs:
+        spi, spj = members[i][1], members[j][1]
+        ctx.count('family_pair:' + relation_of(spi['prefix'], spj['prefix']))
+        ask(i, DK_SIB, dict(own[j]), False)
+        ask(i, DK_SIB_OWNVAL, full_params(spj, members[i][2]), False)
+        ask(i, DK_OWN_SIB, {**own[i], **own[j]}, True)
+        ask(i, DK_SIB_OWN, {**own[j], **own[i]}, True)
+        ni, nj = list(own[i]), list(own[j])  # corresponding names (same structure, same order)
+        t = next((t for t, k in enumerate(ni) if k.endswith('scale')), 0) if rng.random() < 0.5 else \
+            int(rng.integers(0, len(ni)))
+        ask(i, DK_SWAP1, {(nj[u] if u == t else ni[u]): (own[j][nj[u]] if u == t else own[i][ni[u]])
+                          for u in range(len(ni))}, False)
+        take = rng.random(len(ni)) < 0.5
+        take[int(rng.integers(0, len(ni)))] = True
+        if take.all():
+            take[int(rng.integers(0, len(ni)))] = False
+        ask(i, DK_MIXED, {(nj[u] if take[u] else ni[u]): (own[j][nj[u]] if take[u] else own[i][ni[u]])
+                          for u in range(len(ni))}, False)
+    sig = ('family', kind, prefix_class(base), min(len(base), 6), xunit, yunit, xcls)
+    return sig, False, case
+
+
 def in_situ_fit(rng, ctx, mon, M):
     """The models evaluated inside the real fitting pipeline, with the monitors armed."""
     from scippneutron.peaks import fit_peaks
@@ -1236,19 +1586,28 @@ def run(shard, ctx):
             mon.reg.clear()
             before = ctx.n_violations
             r = rng.random()
-            # every kind first, then the mixture
-            pick = i if i < 10 else None
+            # every kind first (incl. one family of related prefixes per model kind, with a base prefix for
+            # which every relation exists: a deterministic part of every shard), then the mixture
+            pick = i if i < 13 else None
+            fam_kinds = (*PEAKS, 'poly', 'comp')
+            mon.dict_kind = None
             try:
-                if pick in (0, 1, 2) or (pick is None and r < 0.45):
+                if pick in (0, 1, 2) or (pick is None and r < 0.42):
                     kind = PEAKS[pick] if pick is not None else PEAKS[int(rng.integers(0, 3))]
                     sig, trivial, case = peak_case(rng, ctx, mon, M, kind, True)
-                elif pick in (3, 4, 5) or (pick is None and r < 0.60):
+                elif pick in (3, 4, 5) or (pick is None and r < 0.56):
                     kind = PEAKS[pick - 3] if pick is not None else PEAKS[int(rng.integers(0, 3))]
                     sig, trivial, case = peak_case(rng, ctx, mon, M, kind, False)
-                elif pick in (6, 7) or (pick is None and r < 0.75):
+                elif pick in (6, 7) or (pick is None and r < 0.70):
                     sig, trivial, case = poly_case(rng, ctx, mon, M)
-                else:
+                elif pick in (8, 9, 10, 11, 12):
+                    base = NUMBERED[int(rng.integers(0, len(NUMBERED)))]
+                    sig, trivial, case = family_case(rng, ctx, mon, M, fam_kinds[pick - 8], base)
+                elif pick is None and r < 0.96:
                     sig, trivial, case = composite_case(rng, ctx, mon, M)
+                else:
+                    kind = fam_kinds[int(rng.integers(0, len(fam_kinds)))]
+                    sig, trivial, case = family_case(rng, ctx, mon, M, kind, draw_prefix(rng, ctx, avoid=('',)))
             except Exception:  # noqa: BLE001  (model calls are wrapped; this is harness code)
                 ctx.oracle_error('C16 driver')
                 continue
